@@ -360,6 +360,28 @@ class OpTrace:
         wrapper.__wrapped__ = real
         setattr(module, name, wrapper)
 
+    def patch_builtin_open_under(self, dirpath):
+        """the builtin open() itself, for every module that does not shadow it (shutil, tempfile, io users ...): opens of paths under
+        `dirpath` become traced ops returning a proxy, all other opens pass through untraced.  Call AFTER patch_open(module) so that a
+        module-level wrapper keeps calling the real builtin."""
+        import builtins
+        real = builtins.open
+        trace = self
+        prefix = os.path.realpath(dirpath) + os.sep
+
+        def wrapper(path, *a, **kw):
+            try:
+                p = os.path.realpath(os.fspath(path)) if not isinstance(path, int) else None
+            except TypeError:
+                p = None
+            if p is None or not p.startswith(prefix):
+                return real(path, *a, **kw)
+            f = trace._op('open', real, (path,) + a, kw)
+            return _FileProxy(trace, f, path)
+
+        wrapper.__wrapped__ = real
+        builtins.open = wrapper
+
     def patch_open(self, module, name='open'):
         """`module.open(...)` (module global shadows the builtin) -> traced op returning a proxy."""
         import builtins
